@@ -31,17 +31,11 @@ Proof.
   lia.
 Qed.
 
-Lemma ttl_reclean_weaker : forall doc, known_C13_reclean doc = false -> known_C13_ttl_reclean doc = false.
-Proof.
-  unfold known_C13_reclean, known_C13_ttl_reclean. induction doc as [|i doc IH]; intro H; [reflexivity|].
-  cbn [existsb] in *. apply orb_false_iff in H. destruct H as [Hi H]. rewrite (IH H), Hi, andb_false_r. reflexivity.
-Qed.
-
 (* the same statements through four loaders; literals (plain, language-tagged, typed) are covered for
    N-Triples / N-Quads / Turtle; N3 joins for documents of its subset (no literals: finding C13-n3-literal-quoted) *)
 Lemma formats_agree4 : forall (doc : list item) (x : db),
   wf_doc_nt doc = true -> wf_doc_ttl doc = true ->
-  known_C13_reclean doc = false -> db_okq x -> pref_ok (d_pref x) ->
+  known_C13_reclean doc = false -> known_C13_ttl_reclean doc = false -> db_okq x -> pref_ok (d_pref x) ->
   next_id (d_dict x) + 10 * N.of_nat (length doc) <= QBIT ->
   forall lq,
     (In lq (den (load_nt (render_doc doc) x)) <-> In lq (den (load_nq (render_doc doc) x))) /\
@@ -49,14 +43,14 @@ Lemma formats_agree4 : forall (doc : list item) (x : db),
     (wf_doc_n3 doc = true -> known_C13_n3 doc x = false ->
      (In lq (den (load_nt (render_doc doc) x)) <-> In lq (den (load_n3 (render_doc doc) x)))).
 Proof.
-  intros doc x Hnt Httl Hr Hxq Hp Hb lq. pose proof (proj1 Hxq) as Hx.
+  intros doc x Hnt Httl Hr Hrt Hxq Hp Hb lq. pose proof (proj1 Hxq) as Hx.
   pose proof (triples_le_doc doc Hnt) as Hl.
   assert (Hb' : next_id (d_dict x) + 10 * N.of_nat (length (triples_of doc)) <= QBIT) by lia.
   destruct (ntriples_1000 doc x Hnt Hr Hxq Hb') as [_ A].
   destruct (nquads_main doc x (wf_nt_nq doc Hnt) Hr Hxq Hb') as [_ B].
   assert (Hb2 : next_id (d_dict x) + 9 * N.of_nat (length (quads_from (d_pref x) doc)) <= QBIT)
     by (rewrite (quads_env_irrelevant doc (d_pref x) Hnt); lia).
-  destruct (ttl_main doc x Httl (ttl_reclean_weaker doc Hr) Hxq Hp Hb2) as [_ D].
+  destruct (ttl_main doc x Httl Hrt Hxq Hp Hb2) as [_ D].
   rewrite A, B, D. rewrite (quads_env_irrelevant doc (d_pref x) Hnt).
   split; [reflexivity|]. split; [reflexivity|].
   intros Hn3 Hk. rewrite (n3_main doc x Hn3 Hk Hx). reflexivity.
